@@ -715,3 +715,20 @@ Proof.
     + destruct (Req_dec z0 lo), (Req_dec z1 lo); try lra. exfalso. apply Hk; auto.
   - apply legsb_sum_pos_two; try assumption. lra.
 Qed.
+
+(* ------------------------------------------------------------------ non-vacuity *)
+Definition example_ice : UIce := mkUIce 1.5 (-500, 0) (Some 1) None.
+Definition example_tracer : UTracer := mkUTracer (100, 50, -100) (400, 50, -200) example_ice.
+
+Example uniform_hypotheses_satisfiable :
+  t_lo example_tracer < t_hi example_tracer /\
+  UniformRayTracer_exists example_tracer = true /\
+  0 < sum_list (dzs (t_lo example_tracer) (t_hi example_tracer) (UniformRayTracer_z0 example_tracer)
+                    (UniformRayTracer_z1 example_tracer) (dirZ true) 1) /\
+  t_lo example_tracer < UniformRayTracer_z0 example_tracer < t_hi example_tracer.
+Proof.
+  unfold t_lo, t_hi, example_tracer, example_ice, UniformRayTracer_exists, UniformRayTracer_z0, UniformRayTracer_z1, vz. simpl.
+  split; [lra|]. split.
+  - repeat rewrite (proj2 (Rleb_true _ _)) by lra. reflexivity.
+  - unfold leg_first, leg_last. simpl. split; lra.
+Qed.
